@@ -19,6 +19,16 @@ package txexec
 //	xfer t v    real inter-call transfer from the contract to EOA t
 //	            (ContractManager.GetCallHandler(CTypeTransfer) -> TransferHandler, new frame), failure caught
 //	exit s      the current frame returns status s mod 1000 (0 = success)
+//	hang a      the frame reports the Timeout status; with a = 1 in an asynchronous frame it
+//	            really never answers, so the call-context timer (waitResult) fires
+//
+// Two flavours, chosen by the method name of the transaction: "run" = synchronous
+// handler, nested frames by cc.Call (each nested frame is its own `target`, so even a
+// Timeout status of a callee is an ordinary caught failure); "runa" = asynchronous
+// handler (what an engine-backed SCORE is): nested frames are requested with cc.OnCall
+// and pushed by waitResult, results come back through SendResult / cc.OnResult, and a
+// Timeout (status or timer) at any depth goes through cleanUpFrames(target = the
+// transaction's call frame): the whole call ends with Timeout.
 //
 // End of script: every open frame returns success.
 // Before the script the root handler charges contractCall steps
@@ -34,9 +44,12 @@ import (
 
 	"github.com/icon-project/goloop/common/codec"
 	"github.com/icon-project/goloop/common/intconv"
+	"github.com/icon-project/goloop/common/log"
 	"github.com/icon-project/goloop/module"
 	"github.com/icon-project/goloop/service/contract"
+	"github.com/icon-project/goloop/service/eeproxy"
 	"github.com/icon-project/goloop/service/scoreresult"
+	"github.com/icon-project/goloop/service/state"
 )
 
 type wrapCM struct {
@@ -46,7 +59,7 @@ type wrapCM struct {
 func (cm *wrapCM) GetHandler(from, to module.Address, value *big.Int, ctype int, data []byte) (contract.ContractHandler, error) {
 	if ctype == contract.CTypeCall && to != nil && addrs[IDScript].Equal(to) {
 		jso, err := contract.ParseCallData(data)
-		if err == nil && jso.Method == "run" {
+		if err == nil && (jso.Method == "run" || jso.Method == "runa") {
 			var params struct {
 				S string `json:"s"`
 			}
@@ -59,17 +72,13 @@ func (cm *wrapCM) GetHandler(from, to module.Address, value *big.Int, ctype int,
 			}
 			ch := contract.NewCommonHandler(from, to, value, false, cm.Logger())
 			pc := 0
-			return &scriptHandler{CommonHandler: ch, ops: ops, pc: &pc, root: true}, nil
+			if jso.Method == "runa" {
+				return &asyncScript{CommonHandler: ch, in: interp{ops: ops, pc: &pc}, root: true}, nil
+			}
+			return &scriptHandler{CommonHandler: ch, in: interp{ops: ops, pc: &pc}, root: true}, nil
 		}
 	}
 	return cm.ContractManager.GetHandler(from, to, value, ctype, data)
-}
-
-type scriptHandler struct {
-	*contract.CommonHandler
-	ops  []Op
-	pc   *int
-	root bool
 }
 
 func status(code int) error {
@@ -77,19 +86,6 @@ func status(code int) error {
 		return nil
 	}
 	return scoreresult.New(module.Status(code), fmt.Sprintf("verif script status %d", code))
-}
-
-func (h *scriptHandler) ExecuteSync(cc contract.CallContext) (error, *codec.TypedObj, module.Address) {
-	if err := cc.ApplyCallSteps(); err != nil {
-		return err, nil, nil
-	}
-	if h.root && h.Value != nil && h.Value.Sign() > 0 {
-		th := contract.VerifNewTransferHandler(h.CommonHandler)
-		if st, _, _ := th.DoExecuteSync(cc); st != nil {
-			return st, nil, nil
-		}
-	}
-	return h.run(cc), nil, nil
 }
 
 func bigOf(s string) *big.Int {
@@ -100,10 +96,21 @@ func bigOf(s string) *big.Int {
 	return v
 }
 
-func (h *scriptHandler) run(cc contract.CallContext) error {
-	for *h.pc < len(h.ops) {
-		op := h.ops[*h.pc]
-		*h.pc++
+// interp is the instruction interpreter shared by the synchronous and the
+// asynchronous scripted contract; nested frames of one transaction share pc.
+type interp struct {
+	ops []Op
+	pc  *int
+}
+
+// step runs instructions of the current frame until the frame ends (status),
+// hangs (hang: never answer), or needs an inter-call (call != nil: the caller
+// performs it — cc.Call in a synchronous frame, cc.OnCall in an asynchronous
+// one — and calls step again when the callee has returned).
+func (in *interp) step(cc contract.CallContext, async bool, logger log.Logger) (call contract.ContractHandler, hang bool, st error) {
+	for *in.pc < len(in.ops) {
+		op := in.ops[*in.pc]
+		*in.pc++
 		switch op.K {
 		case "set":
 			if op.A < 0 || op.A >= NAcct || op.B < 0 || op.B >= NKeys {
@@ -124,12 +131,12 @@ func (h *scriptHandler) run(cc contract.CallContext) error {
 			}
 			amt := bigOf(op.V)
 			if amt.Sign() < 0 {
-				return scoreresult.InvalidParameterError.New("verif: negative move")
+				return nil, false, scoreresult.InvalidParameterError.New("verif: negative move")
 			}
 			as1 := cc.GetAccountState(addrs[op.A].ID())
 			b1 := as1.GetBalance()
 			if b1.Cmp(amt) < 0 {
-				return scoreresult.ErrOutOfBalance
+				return nil, false, scoreresult.ErrOutOfBalance
 			}
 			as1.SetBalance(new(big.Int).Sub(b1, amt))
 			as2 := cc.GetAccountState(addrs[op.B].ID())
@@ -144,15 +151,14 @@ func (h *scriptHandler) run(cc contract.CallContext) error {
 				n = new(big.Int)
 			}
 			if !cc.DeductSteps(n) {
-				return scoreresult.ErrOutOfStep
+				return nil, false, scoreresult.ErrOutOfStep
 			}
 		case "enter":
-			sub := &scriptHandler{
-				CommonHandler: contract.NewCommonHandler(addrs[IDScript], addrs[IDScript], new(big.Int), true, h.Logger()),
-				ops:           h.ops, pc: h.pc,
+			ch := contract.NewCommonHandler(addrs[IDScript], addrs[IDScript], new(big.Int), true, logger)
+			if async {
+				return &asyncScript{CommonHandler: ch, in: *in}, false, nil
 			}
-			_, used, _, _ := cc.Call(sub, cc.StepAvailable())
-			cc.DeductSteps(used)
+			return &scriptHandler{CommonHandler: ch, in: *in}, false, nil
 		case "xfer":
 			if op.A < 0 || op.A > IDTreasury {
 				continue // only EOA recipients: a contract-form recipient would need an engine
@@ -161,17 +167,100 @@ func (h *scriptHandler) run(cc contract.CallContext) error {
 			if err != nil {
 				panic(err)
 			}
-			_, used, _, _ := cc.Call(hd, cc.StepAvailable())
-			cc.DeductSteps(used)
+			return hd, false, nil
 		case "exit":
 			code := op.A % 1000
 			if code < 0 {
 				code = -code
 			}
-			return status(code)
+			return nil, false, status(code)
+		case "hang":
+			// A=1: really never answer (asynchronous frames only; the call-context timer
+			// fires); otherwise report the Timeout status
+			return nil, async && op.A == 1, scoreresult.ErrTimeout
 		}
 	}
+	return nil, false, nil
+}
+
+// ---- synchronous flavour: nested frames through cc.Call
+
+type scriptHandler struct {
+	*contract.CommonHandler
+	in   interp
+	root bool
+}
+
+func (h *scriptHandler) ExecuteSync(cc contract.CallContext) (error, *codec.TypedObj, module.Address) {
+	if err := cc.ApplyCallSteps(); err != nil {
+		return err, nil, nil
+	}
+	if h.root && h.Value != nil && h.Value.Sign() > 0 {
+		th := contract.VerifNewTransferHandler(h.CommonHandler)
+		if st, _, _ := th.DoExecuteSync(cc); st != nil {
+			return st, nil, nil
+		}
+	}
+	for {
+		call, _, st := h.in.step(cc, false, h.CommonHandler.Logger())
+		if call == nil {
+			return st, nil, nil
+		}
+		// the callee's failure is caught
+		_, used, _, _ := cc.Call(call, cc.StepAvailable())
+		cc.DeductSteps(used)
+	}
+}
+
+// ---- asynchronous flavour: stands for a SCORE run by an execution environment.
+// ExecuteAsync starts it, inter-calls are requested with cc.OnCall and answered
+// through SendResult, the end of the frame is reported with cc.OnResult — the
+// frames are pushed, popped and cleaned up by callContext.waitResult/handleResult.
+
+type asyncScript struct {
+	*contract.CommonHandler
+	eeproxy.CallContext // never used: the script talks to contract.CallContext directly
+	in                  interp
+	root                bool
+	cc                  contract.CallContext
+}
+
+func (h *asyncScript) Logger() log.Logger   { return h.CommonHandler.Logger() }
+func (h *asyncScript) EEType() state.EEType { return state.NullEE }
+func (h *asyncScript) Dispose()             {}
+
+func (h *asyncScript) ExecuteAsync(cc contract.CallContext) error {
+	h.cc = cc
+	if err := cc.ApplyCallSteps(); err != nil {
+		return err
+	}
+	if h.root && h.Value != nil && h.Value.Sign() > 0 {
+		th := contract.VerifNewTransferHandler(h.CommonHandler)
+		if st, _, _ := th.DoExecuteSync(cc); st != nil {
+			return st
+		}
+	}
+	h.resume()
 	return nil
+}
+
+func (h *asyncScript) SendResult(st error, steps *big.Int, result *codec.TypedObj) error {
+	// the callee's failure is caught; its steps are charged to this frame
+	h.cc.DeductSteps(steps)
+	h.resume()
+	return nil
+}
+
+func (h *asyncScript) resume() {
+	call, hang, st := h.in.step(h.cc, true, h.CommonHandler.Logger())
+	switch {
+	case call != nil:
+		h.cc.OnCall(call, h.cc.StepAvailable())
+	case hang:
+		// no answer: waitResult's timer ends the transaction
+	default:
+		h.cc.OnResult(st, 0, new(big.Int), nil, nil)
+	}
 }
 
 // ---------------------------------------------------------------- script text
